@@ -306,30 +306,17 @@ func (m *MmsTables) deleteUnorderedFiles(mst string, files []TSSPFile) {
 		return
 	}
 
-	noFiles := true
-	func() {
-		tfs.lock.Lock()
-		defer tfs.lock.Unlock()
+	// The list object stays registered in m.OutOfOrder even when it becomes empty: a concurrent flush
+	// (AddBothTSSPFiles) may already have looked it up and be waiting for its lock to append a new file;
+	// unregistering it here would leave that file on disk but in no list (invisible until restart).
+	tfs.lock.Lock()
+	defer tfs.lock.Unlock()
 
-		for _, f := range files {
-			tfs.deleteFile(f)
-			m.removeFile(f)
-		}
-		if tfs.Len() > 0 {
-			noFiles = false
-			sort.Sort(tfs)
-		}
-	}()
-
-	if !noFiles {
-		return
+	for _, f := range files {
+		tfs.deleteFile(f)
+		m.removeFile(f)
 	}
-
-	m.mu.Lock()
-	defer m.mu.Unlock()
-
-	tfs, ok = m.OutOfOrder[mst]
-	if ok && tfs.Len() == 0 {
-		delete(m.OutOfOrder, mst)
+	if tfs.Len() > 0 {
+		sort.Sort(tfs)
 	}
 }
